@@ -356,6 +356,7 @@ PROPS["C15"] = {
         {
             "pkg": "./mod/modzip",
             "harness": ["modzip/checkzip.go"],
+            "native_replay": False,  # archive/zip.NewReader is stubbed: counterexamples are confirmed by the engine-concrete replay
             "entries": {
                 "quick": [
                     {"name": "verifHarnessCheckZipName", "params": {"N": 2}},
@@ -475,6 +476,7 @@ PROPS["C07"] = {
         {
             "pkg": "./internal/core/export",
             "harness": ["export/bounds.go"],
+            "native_replay": False,  # exporter.expr is stubbed: counterexamples are confirmed by the engine-concrete replay
             "apdmodel": True,
             "entries": {
                 "quick": [{"name": "verifHarnessBoundSimplifier", "params": {"DIGITS": 2, "EXP": 1, "K": 2}}],
